@@ -411,6 +411,14 @@ func c11Writers(c *core.Ctx, r *core.Report) {
 			names = append(names, cons)
 			why, ok := allowed[fn]
 			if !ok {
+				for a, w := range allowed {
+					a := a
+					if withinRole(c, fn, func(g *ssa.Function) bool { return g == a }, 2) {
+						why, ok = w+" (helper)", true
+					}
+				}
+			}
+			if !ok {
 				r.Fail("C11.R4", cons, c.Pos(ci.Pos()), "a reflect write reachable from App.Run outside the frozen writer table: the container could modify something it was not asked to")
 				continue
 			}
